@@ -344,3 +344,5 @@ LEVEL_TEXT = ("Machine-checked Lean 4 theorems (C15_*) over EVERY section value,
               "the property (oracle) run on the real class for every explored state.")
 LEVEL_NOTE = ("Theorems are about the model; model = code is established only on the explored sequences. Keys are str/int. Attribute clause over "
               "identifiers that are not class attributes. Trusted: Lean kernel, driver compilation, CPython list semantics.")
+
+RULE = RULE + ("; ALSO (fifth session): `setval` with plain values that are not str / int / float (None, numpy scalars, list, tuple, bytes, bool)")
